@@ -10,7 +10,7 @@ from . import facts
 from .facts import AnchorError
 
 VERIF = os.path.dirname(os.path.dirname(os.path.abspath(__file__)))
-EVID = os.path.join(VERIF, "evidence")
+EVID = os.environ.get("VERIF_EVIDENCE_DIR") or os.path.join(VERIF, "evidence")  # seed runs redirect their evidence
 
 
 class Violation:
@@ -118,6 +118,14 @@ def run_rule(ctx, fn):
     except AnchorError as e:
         ctx.obligations += 1
         ctx.violations.append(Violation(fn.rule_id, "anchor", f"rule unevaluable: {e}", kind="ANCHOR"))
+    except (KeyError, IndexError, TypeError, ValueError, AttributeError, AssertionError, RecursionError) as e:
+        # fail closed: the code no longer has the shape the rule can evaluate (the rule is silent on nothing it could not read)
+        import traceback as _tb
+        fr = _tb.extract_tb(e.__traceback__)[-1]
+        sys.stderr.write(_tb.format_exc())
+        ctx.obligations += 1
+        ctx.violations.append(Violation(fn.rule_id, "anchor", f"rule unevaluable: {type(e).__name__} {str(e)[:120]} at {os.path.basename(fr.filename)}:{fr.lineno} "
+                                        f"(the analysed code lost the shape this rule reads)", kind="ANCHOR"))
     finally:
         ctx.cur_rule = None
 
